@@ -37,7 +37,7 @@ ID_STYLES = ["part_%02d", "araC-pBAD-%d", "kanR-cassette-v2-%d", "gb|X%d.1|", "m
 
 def goals(tier):
     return ["default-id", "requested-id", "k=3", "annotated-inputs", "unused-module-in-comment", "two-level-nested-provenance",
-            "genbank-roundtrip", "rotated-inputs", "long-chain-comment", "product-named-like-one-of-its-parts", "inputs-renamed-after-a-first-use"]
+            "genbank-roundtrip", "rotated-inputs", "long-chain-comment", "product-named-like-one-of-its-parts", "inputs-renamed-after-a-first-use", "participant-without-an-id"]
 
 
 def annotate(s, name):
@@ -166,6 +166,8 @@ def run_single(st, scn):
     for j, (name, s) in enumerate(strings.items()):
         feats = annotate(s, name) if variant in ("annotated", "rotated") else []
         r = CircularRecord(Seq(s), id=name, name=name, features=feats, annotations={"topology": "circular"})
+        if variant == "anonymous-participant" and j == (scn.get("anonymous", 0) % len(strings)):
+            r = CircularRecord(Seq(s))            # a record that was never given an id (Biopython's placeholder)
         if variant == "rotated":
             rot = scn.get("rot")
             r = r >> ((3 + 2 * j) if rot is None else (rot[1] if j == rot[0] else 0))
@@ -186,6 +188,13 @@ def run_single(st, scn):
         strings["extra-%s" % enz] = extra
         recs["extra-%s" % enz] = CircularRecord(Seq(extra), id="extra-%s" % enz, name="extra")
         st.goal("unused-module-in-comment")
+    if variant == "anonymous-participant":
+        # (the record is known by the id it actually has)
+        anon = names[scn.get("anonymous", 0) % len(names)]
+        recs = {(recs[n].id if n == anon else n): recs[n] for n in names}
+        strings = {(recs_id if True else None): s_ for recs_id, s_ in zip(list(recs), [strings[n] for n in names])}
+        names = list(strings)
+        st.goal("participant-without-an-id")
     vname = names[0]
     mnames = [n for n in strings if n != vname]
     kw = {} if ids is None else dict(id=ids[0], name=ids[1])
@@ -234,9 +243,14 @@ def run_unit(unit, st, tier):
     if kind == "single":
         enz, k = arg
         for scheme in (0, 1):
-            for variant in ("plain", "annotated", "rotated", "with-unused-module", "renamed-after-use"):
+            for variant in ("plain", "annotated", "rotated", "with-unused-module", "renamed-after-use", "anonymous-participant"):
                 for ids in IDS:
+                  for anon in (range(k + 1) if variant == "anonymous-participant" else [None]):
+                    if variant == "anonymous-participant" and ids not in (IDS[0], IDS[1]):
+                        continue
                     scn = dict(enz=enz, k=k, scheme=scheme, variant=variant, ids=list(ids) if ids else None)
+                    if anon is not None:
+                        scn["anonymous"] = anon
                     o = run_single(st, scn)
                     st.scenario("product" if o else "none", None)
                     if k >= 2 or variant != "plain" or ids:
